@@ -188,6 +188,11 @@ class Expander:
         ks = spec.get("k", {})
         for f in M.child_fields(cn):
             v = ks.get(f.name)
+            if not f.init:
+                # no constructor argument: the class's factory makes the child (mirrored here)
+                auto = ENode("LeafA", {"v": 77}, {}, ["no"], self._new_uid())
+                kids[f.name] = auto  # (not in `done`: it cannot be shared or rebuilt elsewhere)
+                continue
             if f.kind in ("one", "opt"):
                 kids[f.name] = None if v is None else self.slot(v, f.classes)
             elif f.kind == "tuple":
@@ -268,8 +273,12 @@ class Built:
         if e.uid in self.live:
             return self.live[e.uid]
         kw: dict = {}
+        autos = []
         for f in M.child_fields(e.cls):
             v = e.kids.get(f.name)
+            if not f.init:
+                autos.append(f)
+                continue
             if v is None:
                 if f.kind in ("one", "opt"):
                     kw[f.name] = None
@@ -281,6 +290,8 @@ class Built:
         for k, v in e.props.items():
             kw[k] = self._resolve(v)
         node = M.cls(e.cls)(origin=og.build_origin(e.origin, self.sources, self.fresh_origins), **kw)
+        for f in autos:
+            self.live[e.kids[f.name].uid] = getattr(node, f.name)
         if e.det:
             node.detach_self()
         self.live[e.uid] = node
@@ -466,7 +477,9 @@ class TreeGen:
         rev_sources: bool = False,
         bombs: bool = False,
         stale_pairs: bool = False,
+        noinit: bool = False,
     ) -> None:
+        self.noinit = noinit
         self.bombs = bombs
         self.stale_pairs = stale_pairs
         self.extra_leaves = extra_leaves
@@ -519,7 +532,7 @@ class TreeGen:
     def leaf(self):
         from hypothesis import strategies as st
 
-        names = ["LeafA", "LeafA", "LeafB", "SubLeafA", "SubSubLeafA", "Strs", "Vals", "TagA", "SlotLeaf", "Checked", "EqLeaf", "LocalLeaf"]
+        names = ["LeafA", "LeafA", "LeafB", "SubLeafA", "SubSubLeafA", "Strs", "Vals", "TagA", "SlotLeaf", "Checked", "EqLeaf", "LocalLeaf", "Synth"]
         if self.falsy:
             names.append("Falsy")
         if self.servals:
@@ -619,6 +632,10 @@ class TreeGen:
                                            "k": st.fixed_dictionaries({"header": opt, "children": items, "footer": opt})}))
         opts.append(st.fixed_dictionaries({"c": st.just("KwFirst"), "o": self.origin(), "p": self.props("KwFirst"),
                                            "k": st.fixed_dictionaries({"late": opt, "early": opt})}))
+        if self.noinit:
+            ni = st.fixed_dictionaries({"c": st.just("NoInit"), "o": self.origin(),
+                                        "k": st.fixed_dictionaries({"kid": opt, "last": opt})})
+            opts += [ni, ni.map(dict)]
         if self.bombs:
             bomb = st.fixed_dictionaries(
                 {"c": st.just("BombNode"), "o": self.origin(), "p": self.props("BombNode"),
